@@ -229,7 +229,8 @@ var knownD9 = map[string]func(c *Sexp, o Outcome) bool{
 	"name-or-single-over-optional": func(c *Sexp, o Outcome) bool {
 		return hasNameOrSingleOverOptional(c) && (strings.Contains(o.OracleFail, "a derivation was lost") ||
 			strings.Contains(o.OracleFail, "although a derivation consumes the whole input") ||
-			strings.Contains(o.OracleFail, "the grammar derives the whole input"))
+			strings.Contains(o.OracleFail, "the grammar derives the whole input") ||
+			strings.Contains(o.OracleFail, "by the operators' documented rules"))
 	},
 }
 
@@ -431,9 +432,15 @@ func init() {
 	}
 	register(&Prop{
 		ID: "C01", Cmd: "parse",
-		Rule:   "random certified grammars (1-3 nonterminals, memoized with probability 0.85, bodies over the whole combinator set biased to direct/indirect/hidden left recursion, nullable and cyclic rules) x inputs sampled from the grammar, mutated, or uniform; both root.Parse and parsley.Parse observables are compared with the Lean model. Non-trivial = a memoized parser was re-entered at the same position and at least one call was answered by curtailment or the cache; distinct = distinct case text.",
-		Count:  quickN(6000, 60000),
-		Gen:    genParseCase(core, 10),
+		Rule:   "random certified grammars (1-3 nonterminals, memoized with probability 0.85, bodies over the property's combinator set biased to direct/indirect/hidden left recursion, nullable and cyclic rules) x inputs sampled from the grammar, mutated, or uniform; every second case comes from a template family of 2-3 memoized rules whose alternatives are t | N t | t N | t? N t | N N | N | eps with uniform inputs up to 5 bytes; both root.Parse and parsley.Parse observables are compared with the Lean model. Non-trivial = a memoized parser was re-entered at the same position and at least one call was answered by curtailment or the cache; distinct = distinct case text.",
+		Count: quickN(8000, 80000),
+		Gen: func(rng *rand.Rand, tier string, i int) *Sexp {
+			if i%2 == 1 {
+				g, in := genTemplate(rng)
+				return parseCaseSexp(g, in)
+			}
+			return genParseCase(core, 10)(rng, tier, i)
+		},
 		Exec:   parseExec(oracleC01, nontrivialLR),
 		Shrink: shrinkParse,
 		Known:  knownD9,
@@ -451,7 +458,36 @@ func init() {
 		Rule:  "random certified grammars, named and unnamed alternatives, memoized or not, SuppressError included; inputs mostly non-matching. Oracle: exactly one of node/error is non-nil; a Sentence result spans the whole input. Non-trivial = the parse failed, or succeeded with a Sentence root.",
 		Count: quickN(6000, 60000),
 		Gen: func(rng *rand.Rand, tier string, i int) *Sexp {
+			if i%6 == 1 {
+				// repetition / optional-tail templates: a variable-length sequence of multi-token items followed by a
+				// prefix of an item, so the full parse needs the shorter match
+				al := []byte("ab")
+				t := func() *Sexp { return runeT(al[rng.Intn(2)]) }
+				item := LA("seq", A("of"), noOpts, t(), t())
+				var rep *Sexp
+				switch rng.Intn(5) {
+				case 0:
+					rep = LA("many", N(1), noOpts, item)
+				case 1:
+					rep = LA("many", N(0), noOpts, item)
+				case 2:
+					rep = LA("sepby", N(rng.Intn(2)), noOpts, item, t())
+				case 3:
+					rep = LA("seq", A("try"), noOpts, item, item, t())
+				default:
+					rep = LA("seq", A("foa"), noOpts, item, item, t())
+				}
+				g := genGrammar{[]*Sexp{LA("seq", A("of"), noOpts, rep, t())}, LA("sentence", LA("ref", N(0)))}
+				if rng.Intn(2) == 0 {
+					g.env[0] = LA("memo", N(0), g.env[0])
+				}
+				return parseCaseSexp(g, sampleInput(rng, g, al, 9))
+			}
 			o := genOpts{subMemo: 0.1, sentence: 0.75, maxRules: 3, nameAlts: rng.Intn(3) == 0}
+			if i%3 == 0 {
+				o.lrf = true // no recursion at all: the exact reference semantics of every operator applies
+				o.subMemo = 0.3
+			}
 			g := genCertified(rng, o)
 			var in []byte
 			if rng.Intn(2) == 0 {
